@@ -51,6 +51,7 @@ def systematic(tier: str) -> list[dict]:
     progs += list(P.fam_einsum())
     progs += list(P.fam_csr(rng, 12))
     progs += list(P.fam_pairs())
+    progs += list(P.fam_pad())
     if tier == "quick":
         progs = [p for k, p in enumerate(progs) if k % 3 == 0]
     for p in progs:
